@@ -3,7 +3,8 @@
    sound_ub m rmin f := forall b n, simplex b -> EV n b + g^n rmin/(1-g) <= f b   (limit-free f >= V* ) *)
 From Coq Require Import List Arith ZArith QArith Qminmax Lqa Lia Bool.
 From AIT Require Import Base.Qx Base.Mdp Base.MdpExec C02.Model C02.Spec C03.Model C03.Spec C03.Proofs
-  C03.ProofsLB C03.ProofsUB C03.ProofsMain C03.ProofsTrace C03.ProofsRefute.
+  C03.ProofsLB C03.ProofsUB C03.ProofsMain C03.ProofsSaw C03.ProofsTrace C03.ProofsRefute C03.ProofsPBVI.
+From AIT Require Import C04.Model.
 Import ListNotations.
 Local Open Scope Q_scope.
 
@@ -100,21 +101,65 @@ Proof.
 Qed.
 Print Assumptions lb_trace_sound.
 
-(* upper-bound trace, PARTIAL.  Full statement (DESIGN §4): if the initial entries are sound and every
-   added entry (belief point or corner write) passed ub_event_ok 0, every entry ever added is sound.
-   Proved: belief-point events and pruning, each point certified per action against a surface of the
-   history, under the premise that the interpolation surface [usurf] of sound entries is sound
-   (proved for the corner-plane part: lin_surface_sound; the sawtooth tooth and corner writes need
-   sub-additivity of EV, not done). *)
-Theorem ub_trace_sound_partial : forall m rmin evs hist final, wf_pomdp m -> rmin_ok m rmin ->
-  (forall st, state_sound m (rmin / (1 - gam (pm m))) st -> surface_sound m (rmin / (1 - gam (pm m))) (usurf m st)) ->
+(* upper-bound trace (DESIGN §4 C03): entries are corner values ubQ(s,a) and belief points (b_i, v_i).
+   A state is sound when its table dominates every per-action value linearly (qdom: for all n, tau >= 0,
+   a: Q_n(tau,a) <= sum_s tau(s) ubQ(s,a), where W = max_a Q_n is EV_n + g^n rmin/(1-g) per unit mass)
+   and every point dominates W at its belief.  If the initial states are sound and every added entry —
+   belief point (ub_point_ok 0) or corner write (ub_corner_ok 0), each certified per action against the
+   interpolation surface of SOME state of the history — was accepted, then every state ever produced is
+   sound; pruning needs no check.  The surface (corner planes + sawtooth teeth) of a sound state is a
+   sound upper bound (surface_of_sound_entries), by sub-additivity and homogeneity of EV. *)
+Theorem ub_trace_sound : forall m rmin evs hist final, wf_pomdp m -> rmin_ok m rmin ->
   Forall (state_sound m (rmin / (1 - gam (pm m)))) hist ->
-  ub_run m hist evs = Some final -> Forall (state_sound m (rmin / (1 - gam (pm m)))) final.
+  ub_run m 0 hist evs = Some final -> Forall (state_sound m (rmin / (1 - gam (pm m)))) final.
 Proof.
-  intros m rmin evs hist final Hwf Hr Hsurf Hall H.
-  exact (ub_trace_sound_lemma m Hwf _ (tail_lo_rmin m Hwf rmin Hr) Hsurf evs hist final Hall H).
+  intros m rmin evs hist final Hwf Hr Hall H.
+  exact (ub_trace_sound_lemma m Hwf _ (tail_lo_rmin m Hwf rmin Hr) evs hist final Hall H).
 Qed.
-Print Assumptions ub_trace_sound_partial.
+Print Assumptions ub_trace_sound.
+
+Theorem surface_of_sound_entries : forall m rmin st, wf_pomdp m ->
+  state_sound m (rmin / (1 - gam (pm m))) st -> sound_ub m rmin (usurf m st).
+Proof.
+  intros m rmin st Hwf H b n Hb. change (Vmin m rmin n b) with (Vmax m rmin n b).
+  rewrite <- (W_Vmax m Hwf rmin n b Hb). destruct Hb as [Hl [Hn Hs]].
+  apply (usurf_sound m Hwf _ st H); assumption.
+Qed.
+Print Assumptions surface_of_sound_entries.
+
+(* the initial entries of SARSOP / GapMin: every FIB iterate (no points yet) is a sound state *)
+Theorem fib_initial_state_sound : forall m rmin k, wf_pomdp m -> rmin_ok m rmin -> fib_start_ok m ->
+  state_sound m (rmin / (1 - gam (pm m))) (fib_iter m k (fib_start m), []).
+Proof.
+  intros m rmin k Hwf Hr Hok. pose proof (tail_lo_rmin m Hwf rmin Hr) as Hc.
+  destruct (fib_start_supersol m Hwf _ Hok Hc (rmin_lo m Hwf rmin Hr)) as [H1 H2].
+  apply (fib_state_sound m Hwf _ Hc); assumption.
+Qed.
+Print Assumptions fib_initial_state_sound.
+
+(* PBVI from the zero start (lists newest first; [select] = extractDominated / extractBestAtPoint, any
+   non-emptying sub-list selection): the horizon-h surface never exceeds the h-step expectimax.
+   obs_clean: observations the Projecter treats as impossible have probability exactly 0. *)
+Theorem pbvi_sound : forall m select bl h b, wf_pomdp m -> obs_clean m ->
+  (forall l e, In e (select l) -> In e l) -> (forall l, l <> [] -> select l <> []) -> bl <> [] ->
+  simplex (nS (pm m)) b -> vbest (hd [] (pbvi_chain select m bl h)) b <= EV m h b.
+Proof.
+  intros m select bl h b Hwf Hcl Hsub Hne Hbl [Hl [Hn Hs]].
+  exact (pbvi_sound_lemma m Hwf Hcl select Hsub Hne bl h b Hbl Hn Hl).
+Qed.
+Print Assumptions pbvi_sound.
+
+(* PERSEUS from minReward/(1-discount), minReward <= every reward: every vector of every list is sound *)
+Theorem perseus_sound : forall m select rmax bl minRew h e, wf_pomdp m -> obs_clean m -> rmax_ok m rmax ->
+  (forall l e, In e (select l) -> In e l) -> (forall l, l <> [] -> select l <> []) -> bl <> [] ->
+  rmin_ok m minRew -> In e (hd [] (perseus_chain select m bl minRew h)) ->
+  sound_lb m rmax (fun b => dot (vals e) b).
+Proof.
+  intros m select rmax bl minRew h e Hwf Hcl Hr Hsub Hne Hbl Hmin He.
+  apply (sound_vec_sound_lb m Hwf).
+  exact (perseus_sound_lemma m Hwf Hcl select Hsub Hne _ bl minRew h e (tail_hi_rmax m Hwf rmax Hr) Hbl Hmin He).
+Qed.
+Print Assumptions perseus_sound.
 
 (* the hypotheses fib_start_ok / blind_start_ok cannot be dropped: with discount 16383/16384 > 0.9999 the
    std::max(0.0001, 1 - discount) guard makes FIB start below, and Blind(fasterConvergence) start above, V* *)
@@ -160,9 +205,12 @@ Example ex_hypotheses :
    lb_run ex_pomdp init [LbEv 0 [1%nat; 1%nat] (map (fun x => x - 1) (backup_vec ex_pomdp 0 (fun _ => nth 1 init [])));
                          LbEv 1 [2%nat; 0%nat] (backup_vec ex_pomdp 1 (fun o => nth (nth o [2%nat; 0%nat] O) (init ++ [map (fun x => x - 1) (backup_vec ex_pomdp 0 (fun _ => nth 1 init []))]) []))]
    <> None) /\
-  (* an accepted upper-bound point event on the FIB table *)
-  (let q := snd (fib_run ex_pomdp 3 0) in
-   ub_run ex_pomdp [(q, [])] [UbPoint [1#2; 1#2] (lin_surface ex_pomdp q [1#2; 1#2]) [0%nat; 0%nat]; UbPrune [0%nat]] <> None).
+  (* an accepted upper-bound trace on the FIB table: a belief point, a corner write, a pruning *)
+  (let q := fib_iter ex_pomdp 3 (fib_start ex_pomdp) in
+   ub_run ex_pomdp 0 [(q, [])]
+     [UbPoint [1#2; 1#2] (ub_backup ex_pomdp (q, []) [1#2; 1#2] 0 + 1) [0%nat; 0%nat];
+      UbCorner 1 0 (ub_backup ex_pomdp (q, []) [0; 1] 0) 1;
+      UbPrune [0%nat]] <> None).
 Proof.
   split; [| split; [| split; [| split; [| split; [| split]]]]].
   - intros [|[|s]] [|[|a]] Hs Ha; try (cbn in Hs, Ha; lia); vm_compute; discriminate.
@@ -171,5 +219,20 @@ Proof.
   - intros a _. left. vm_compute. discriminate.
   - vm_compute. reflexivity.
   - vm_compute. discriminate.
+  - vm_compute. discriminate.
+Qed.
+
+Example ex_point_based_hypotheses :
+  obs_clean ex_pomdp /\ (forall l e, In e ((fun l : vlist => l) l) -> In e l) /\
+  (forall l : vlist, l <> [] -> (fun l : vlist => l) l <> []) /\ rmin_ok ex_pomdp (-2) /\
+  length (hd [] (pbvi_chain (fun l => l) ex_pomdp [[1#2; 1#2]; [1; 0]] 2)) = 4%nat /\
+  hd [] (perseus_chain (fun l => l) ex_pomdp [[1#2; 1#2]; [1; 0]] (-2) 2) <> [].
+Proof.
+  split; [| split; [| split; [| split; [| split]]]].
+  - intros [|[|a]] [|[|o]] Ha Ho Hp s1 Hs1; try (cbn in Ha, Ho; lia); vm_compute in Hp; try discriminate.
+  - intros l e H; exact H.
+  - intros l H; exact H.
+  - intros [|[|s]] [|[|a]] Hs Ha; try (cbn in Hs, Ha; lia); vm_compute; discriminate.
+  - vm_compute. reflexivity.
   - vm_compute. discriminate.
 Qed.
